@@ -85,7 +85,7 @@ def wdo (s : WState) (l : WLabel) : WState := (wstep WCfg.gen s l).getD s
 def runSet (s : WState) (v : Int) : WState × Bool :=
   let i := s.setters.length
   let s := { s with setters := s.setters ++ [(v, .idle)] }
-  let s := wdo (wdo (wdo s (.alloc i)) (.swap i)) (.close i)
+  let s := wdo (wdo s (.swap i)) (.close i)
   (s, match s.setters[i]? with | some (_, .done) => true | _ => false)
 
 /-- run one `Value()` call to completion; the returned cell -/
@@ -95,7 +95,7 @@ def runValue (s : WState) : WState × Option Nat :=
   let s := wdo s (.load j)
   let s := match s.readers[j]? with
     | some .sawNil =>
-      let s := wdo (wdo s (.mkchan j)) (.cas j)
+      let s := wdo s (.cas j)
       match s.readers[j]? with
       | some .casFailed => wdo s (.reload j)
       | _ => s
